@@ -324,6 +324,15 @@ package api
 //@ func api.Recovery$1(ctx)
 //@   requires ctx != nil
 //@   modifies ctx
+
+// The deferred function of Recovery: when it runs during a panic (ghost `panicking`: recover() returned a value) the
+// response is a complete 500; otherwise it leaves the response alone. That it is deferred before next(ctx) runs and
+// calls recover() itself is checked structurally (table:Recovery[...]).
+//@ func api.Recovery$1$1()
+//@   requires ctx != nil
+//@   modifies ctx
+//@   ensures[recovered] panicking ==> respstatus(ctx) == 500 && respnbody(ctx) == old(respnbody(ctx)) + 1
+//@   ensures[quiet] !panicking ==> respstatus(ctx) == old(respstatus(ctx)) && respnbody(ctx) == old(respnbody(ctx))
 //@ func api.Logger$1(ctx)
 //@   requires ctx != nil
 //@   modifies ctx
